@@ -83,15 +83,17 @@ FLOORS = {
               "tx.kind.default": 180, "tx.kind.clear": 90, "tx.kind.delete-only": 90, "open.paused_inside": 600,
               "reader.open_retries": 20, "open.via_new_index_object": 150, "commits.published": 800, "proc.histories": 5, "proc.held_evals": 120,
               "proc.held_across_commit": 20, "proc.final_checks": 5},
-    "thorough": {"schedules": 1500, "sched.steps": 4000000, "interleavings.distinct": 1200, "reader.iterations": 10000,
-                 "held.iterations_with_commit": 2000, "held.commits_during_hold": 2500,
-                 "held.lazy_first_touch_after_commit": 600, "held.evals": 8000, "open.evals": 10000,
-                 "refresh.evals": 3000, "refresh.after_merge": 500, "refresh.reused_segment_readers": 250,
-                 "uptodate.evals": 10000, "uptodate.false": 1000, "uptodate.true": 2500, "popA.schedules": 500,
-                 "popB.schedules": 400, "storage.ram.schedules": 250, "storage.file-mmap.schedules": 250,
-                 "storage.file-nommap.schedules": 250, "tx.kind.optimize": 250, "tx.kind.default": 250,
-                 "tx.kind.clear": 80, "tx.kind.delete-only": 250, "open.paused_inside": 1000,
-                 "commits.published": 4000, "proc.histories": 20, "proc.reader_iterations": 200},
+    # thorough floors = about 1/4 of one 16-shard x 660 s run on the same busy machine
+    "thorough": {"schedules": 6000, "sched.steps": 9000000, "interleavings.distinct": 6000, "reader.iterations": 45000,
+                 "held.iterations_with_commit": 14000, "held.commits_during_hold": 25000,
+                 "held.lazy_first_touch_after_commit": 8000, "held.evals": 45000, "open.evals": 20000,
+                 "refresh.evals": 22000, "refresh.after_merge": 3500, "refresh.reused_segment_readers": 4500,
+                 "uptodate.evals": 45000, "uptodate.false": 18000, "uptodate.true": 28000, "popA.schedules": 3000,
+                 "popB.schedules": 3000, "storage.ram.schedules": 2000, "storage.file-mmap.schedules": 2000,
+                 "storage.file-nommap.schedules": 2000, "tx.kind.optimize": 2300, "tx.kind.default": 4500,
+                 "tx.kind.clear": 2300, "tx.kind.delete-only": 2300, "open.paused_inside": 15000,
+                 "commits.published": 20000, "proc.histories": 250, "proc.reader_iterations": 8000,
+                 "proc.held_across_commit": 1000},
 }
 
 VOCAB = ["alfa", "bravo", "charlie", "delta", "echo", "foxtrot", "golf", "hotel"]
